@@ -41,7 +41,18 @@ type botConn struct {
 
 func (b *botConn) ReadFrom(p []byte) (int, net.Addr, error) {
 	select {
+	case <-b.closed:
+		return 0, nil, io.EOF
+	default:
+	}
+	select {
 	case k := <-b.in:
+		select {
+		case <-b.closed: // closed wins over queued data (a plain select would choose at random)
+			return 0, nil, io.EOF
+		default:
+		}
+
 		return copy(p, k.data), k.from, nil
 	case <-b.closed:
 		return 0, nil, io.EOF
